@@ -1,7 +1,7 @@
 import MxModel.Kernels.Names
 import MxModel.Generated.Tables
 import MxModel.Props.C03
-import MxModel.Proofs.StructMechCor
+import MxModel.Proofs.StructMechLive
 /-!
 # C11 – rejected edits change nothing; the inheritance relation stays well-formed
 
@@ -68,16 +68,41 @@ example : isValidName pythonKeywords "Space1" = true := by decide
 section mechanism
 open MxModel.SM
 
-/-- **A rejected edit changes nothing** (mechanism model): every operation validates before it
-mutates – `apply` returns `none` without a state, and `step` returns the state it was given.
-(The model mirrors the order of validation and mutation of the repaired code; that the code does
-the same is the before/after oracle of this check and the `smech` correspondence.) -/
+/-- **A rejected edit changes nothing** (mechanism model).  NOTE what this is: a fact about the
+step function - `apply` returns `none` without a state and `step` returns the state it was given - true
+of ANY `apply`.  The model has no intermediate states, so a path of the code that mutates and then raises
+cannot be expressed in it; that the CODE validates before it mutates is decided by the before/after
+oracle of this check on the real code (five such paths were repaired, four more are recorded as known
+findings).  What the model contributes is the explicit refusal criterion: `refused_iff` below, with
+`SM.St.accepts` spelled out operation by operation (`Proofs/StructMechEffect.lean`), compared with the
+code's accept/refuse by the `smech` correspondence. -/
 theorem rejected_edit_changes_nothing (kw : List String) (st : St) (op : Op)
     (h : (st.step kw op).2 = false) : (st.step kw op).1 = st := by
   unfold St.step at h ⊢
   cases hop : st.apply kw op with
   | none => rfl
   | some st' => rw [hop] at h; cases h
+
+/-- **When an edit is rejected**: exactly when the explicit criterion `accepts` fails (each of the
+twelve operations has one; e.g. `newCells`: the space exists, the name the cells gets is a valid name and
+`_can_add` passes for the space and every sub space) -/
+theorem refused_iff (kw : List String) (st : St) (op : Op) :
+    (st.step kw op).2 = false ↔ st.accepts kw op = false := by
+  rw [← apply_isSome]
+  unfold St.step
+  cases st.apply kw op <;> simp
+
+/-- **Only valid identifiers not starting with an underscore ever become names**: in every state
+reachable by any sequence of operations every component of every space id, every cells and reference
+name (defined or derived) and every model-level reference is a valid name.  (`new_cells` with an invalid
+explicit name does not raise: the cells gets the name of its formula or an automatic one, which is the
+name that is checked - `SM.St.cellsName`.) -/
+theorem reachable_names_valid (kw : List String) (ops : List Op) :
+    (∀ q ∈ (St.run kw {} ops).ids, ∀ c ∈ q, isValidName kw c = true) ∧
+    (∀ a q n, ((St.run kw {} ops).mem a q n).isSome = true → isValidName kw n = true) ∧
+    (∀ n ∈ (St.run kw {} ops).globals, isValidName kw n = true) := by
+  have h := run_invN kw ops
+  exact ⟨h.names.ids, fun a q n hm => h.names.mems h.toInv a q n hm, h.names.globals⟩
 
 /-- **Every accepted edit leaves a C3 linearisation for every space**: in every state reachable by
 any sequence of operations, `get_mro` of every space returns (it starts with the space). -/
@@ -110,19 +135,28 @@ theorem reachable_tree_wellformed (kw : List String) (ops : List Op) :
 
 /-! Non-vacuity: a cyclic base edit, an edit leaving a sub space without linearisation (C3 is not
 monotone under removal of a base) and an invalid name are refused; the state is what it was. -/
-def chainOps : List Op := [.newSpace [] "A" [], .newSpace [] "B" [["A"]], .newCells ["A"] "f" 1]
+def chainOps : List Op := [.newSpace [] "A" [] [], .newSpace [] "B" [["A"]] [], .newCells ["A"] "f" "f" 1]
 
 example : ((St.run pythonKeywords {} chainOps).step pythonKeywords (.addBases ["A"] [["B"]])).2 = false := by decide
-example : ((St.run pythonKeywords {} chainOps).step pythonKeywords (.newCells ["A"] "for" 1)).2 = false := by decide
-example : ((St.run pythonKeywords {} chainOps).step pythonKeywords (.newSpace [] "_x" [])).2 = false := by decide
+/-- a cells cannot be given an invalid name: `new_cells(name="for")` does not raise, the cells is named after
+its formula if that gives a valid name, else automatically (`Cells1`, ...), and is derived under that name -/
+example : (St.run pythonKeywords {} (chainOps ++ [.newCells ["A"] "for" "for" 1])).mem .cells ["A"] "for" = none := by decide
+example : (St.run pythonKeywords {} (chainOps ++ [.newCells ["A"] "for" "for" 1])).mem .cells ["B"] "Cells1"
+    = some { derived := true, payload := 1 } := by decide
+example : (St.run pythonKeywords {} (chainOps ++ [.newCells ["A"] "_x" "g" 1])).mem .cells ["A"] "g"
+    = some { derived := false, payload := 1 } := by decide
+example : (St.run pythonKeywords {} (chainOps ++ [.setRef ["B"] "Cells1" 0, .newCells ["A"] "" "<lambda>" 1,
+    .newCells ["A"] "" "" 2])).cont .cells ["A"]
+    = [("f", ⟨false, 1⟩), ("Cells2", ⟨false, 1⟩), ("Cells3", ⟨false, 2⟩)] := by decide
+example : ((St.run pythonKeywords {} chainOps).step pythonKeywords (.newSpace [] "_x" [] [])).2 = false := by decide
 example : ((St.run pythonKeywords {} chainOps).step pythonKeywords (.addBases ["B"] [["A"]])).2 = true := by decide
 example : (St.run pythonKeywords {} chainOps).mro ["B"] = some [["B"], ["A"]] := by decide
 
 /-- the history behind repair 75ec125: deleting the space `X` would leave `E` without a linearisation -/
 def nonMonotoneOps : List Op := [
-  .newSpace [] "X" [], .newSpace [] "Y" [], .newSpace [] "C" [],
-  .newSpace [] "B1" [["X"], ["Y"]], .newSpace [] "B2" [["C"], ["X"]],
-  .newSpace [] "D" [["B1"], ["B2"]], .newSpace [] "F" [["C"], ["Y"]], .newSpace [] "E" [["D"], ["F"]]]
+  .newSpace [] "X" [] [], .newSpace [] "Y" [] [], .newSpace [] "C" [] [],
+  .newSpace [] "B1" [["X"], ["Y"]] [], .newSpace [] "B2" [["C"], ["X"]] [],
+  .newSpace [] "D" [["B1"], ["B2"]] [], .newSpace [] "F" [["C"], ["Y"]] [], .newSpace [] "E" [["D"], ["F"]] []]
 
 example : ((St.run [] {} nonMonotoneOps).step [] (.delSpace ["X"])).2 = false := by decide
 example : ((St.run [] {} nonMonotoneOps).step [] (.removeBases ["B1"] [["X"]])).2 = false := by decide
